@@ -1,6 +1,7 @@
 package checks
 
 import (
+	"errors"
 	"crypto/tls"
 	"context"
 	"encoding/json"
@@ -171,7 +172,12 @@ func raceReplay(job raceJob) {
 		case ev[0] == 'c' && strings.Contains(ev, ":"):
 			var ci, k int
 			if n, _ := fmt.Sscanf(ev, "c%d:seg%d", &ci, &k); n == 2 && ci < len(conns) && ci < len(sc.Clients) && k < len(sc.Clients[ci]) {
-				conns[ci].client.Write([]byte(sc.Clients[ci][k]))
+				if seg := sc.Clients[ci][k]; seg == "<RST>" {
+					conns[ci].gone = true
+					conns[ci].client.Out.End(&net.OpError{Op: "read", Net: "tcp", Err: errors.New("connection reset by peer")})
+				} else {
+					conns[ci].client.Write([]byte(seg))
+				}
 			} else if n, _ := fmt.Sscanf(ev, "c%d:disconnect", &ci); n == 1 && ci < len(conns) {
 				conns[ci].gone = true
 				conns[ci].client.Out.End(io.EOF)
